@@ -257,7 +257,10 @@ func runCachedSeq(id string, parts []string) string {
 // refusal: <id> cfg=<cfgspec with L=<limit>:<burst> and a unique X=..> l=<listener> qs=<hex>;<hex>;.. up=reply:<hex of a reply to the FIRST query>
 //   The queries are sent back to back from one client (one connection on stream listeners), so that the client limiter
 //   refuses the later ones.  Result: n=<k> r1=<st>:<hex|-> .. upn=<number of upstream queries seen for the first question>
-func init() { register("refusal", 8, runRefusal) }
+func init() {
+	register("recover", 4, runRefusal)
+	register("refusal", 8, runRefusal)
+}
 
 func runRefusal(id string, parts []string) string {
 	f := hx.Fields(parts)
@@ -286,6 +289,24 @@ func runRefusal(id string, parts []string) string {
 		}
 		out = append(out, fmt.Sprintf("r%d=%s:%s", i+1, st, r))
 	}
+	// "recover" cases: after the burst the client pauses until its bucket is full again (pause=<ms>) and asks once
+	// more (final=<hex>): the listener must still be there and answer
+	fin := ""
+	if f["final"] != "" {
+		q, err := hx.UnHex(f["final"])
+		if err != nil {
+			return "HARNESS-ERROR bad hex"
+		}
+		time.Sleep(time.Duration(hx.MustAtoi(f["pause"])) * time.Millisecond)
+		resps, st := env.Query(f["l"], q, "-", 3*time.Second, 30*time.Millisecond)
+		r := "-"
+		if len(resps) == 1 {
+			r = hx.Hex(resps[0])
+		} else if len(resps) > 1 {
+			st = fmt.Sprintf("n%d", len(resps))
+		}
+		fin = fmt.Sprintf(" rf=%s:%s", st, r)
+	}
 	ups := env.TakeQueries(key)
-	return fmt.Sprintf("n=%d %s upn=%d", len(out), strings.Join(out, " "), len(ups))
+	return fmt.Sprintf("n=%d %s%s upn=%d", len(out), strings.Join(out, " "), fin, len(ups))
 }
